@@ -73,6 +73,7 @@ def _ancestors(k, p):
 
 class C06(Prop):
     id = "C06"
+    track_states = True
     quick_runs = 1500
     thorough_runs = 30000
     assumptions = ["'prompt' is checked as: virtual time between call and return < %g s while running tasks last 1e3 or 1e6 s" % BOUND,
